@@ -1066,7 +1066,7 @@ func specs(r *eng.Run) []eng.SeqSpec {
 
 func main() {
 	eng.Main("C19", "model_checking", func(r *eng.Run) {
-		r.Rule("BFS over sequences of Mkdir/Mkdir -p/PutNode(create)/open-write-close/open-truncate-close/Mv/Unlink/Chmod/Touch/FlushPath/root Flush/Lookup on a fresh mfs.Root (4 configurations: publish function set or nil x default or tiny (MaxLinks=2) sharding); successor = replay on a fresh root + 1 op; state = model tree + entriesCache contents and basic/HAMT kind of every cached directory; after every transition (a) the tree shown by ListNames/List/Lookup/Open+Read/Size/Mode/ModTime and (b) the root DAG after Flush read through uio directories + DagReader are compared with the model tree incl. contents, mode, mtime; a failed op must leave both unchanged; non-trivial = path of >= 2 operations")
+		r.Rule("BFS over sequences of Mkdir/Mkdir -p/PutNode(create)/open-write-close/open-truncate-close/open-append-close/write-flush-truncate call orders on one descriptor/Mkdir with WithMode+WithModTime (only the named directory gets them)/Mv/Unlink/Chmod/Touch/FlushPath/root Flush/Lookup on a fresh mfs.Root (4 configurations: publish function set or nil x default or tiny (MaxLinks=2) sharding, + 1 configuration in which the live-view observers run after every operation on the same root); successor = replay on a fresh root + 1 op; state = model tree + entriesCache contents and basic/HAMT kind of every cached directory; after every transition (a) the tree shown by ListNames/List/Lookup/Open+Read/Size/Mode/ModTime and (b) the root DAG after Flush read through uio directories + DagReader are compared with the model tree incl. contents, mode, mtime; a failed op must leave both unchanged; non-trivial = path of >= 2 operations")
 		r.Assume("in-memory DAG service (map datastore, offline exchange) is correct; UnixFS readers (uio.Directory enumeration, DagReader) are correct (C08/C09/C15)")
 		r.Assume("one operation at a time per root (concurrency is C20); file descriptors are opened, used and closed within one operation")
 		n, bounds := 0, []string{}
